@@ -43,6 +43,11 @@ def r_calc(E):
                     seen.add(fn.name)
                     res.instances += 1
                     a = fn.name[len("update_"):]
+                    # (a method that needs an argument is not a rule — rules are called as update_<attr>() — but a step
+                    # that rules share: update_occupied_resource_per_instance(resource))
+                    required = len(fn.args.args) - 1 - len(fn.args.defaults)
+                    if a not in ca and required > 0:
+                        continue
                     if a not in ca:
                         o2, f2 = pm.find_method(c, fn.name)
                         if f2 is not None and is_abstract(f2):
